@@ -31,8 +31,10 @@ theorem succ_mod (j len : Nat) (hlen : 1 ≤ len) :
 theorem C16_kth_hop_index (len : Nat) (hlen : 1 ≤ len) (j : Nat) : hopIndex (hopCounter len j) len = j % len := by
   induction j with
   | zero =>
-    simp only [hopCounter, hopIndex, Nat.zero_mod]
-    split <;> rfl
+    show (if hopCounter len 0 ≥ len then 0 else hopCounter len 0) = 0 % len
+    rw [Nat.zero_mod]
+    show (if 0 ≥ len then 0 else 0) = 0
+    exact ite_self 0
   | succ j ih =>
     have hlt : j % len < len := Nat.mod_lt _ (by omega)
     simp only [hopCounter, ih]
@@ -97,5 +99,56 @@ theorem C16_hop (fuel : Nat) (h : Handle) (c : Chip) (hl : c.isLora = true)
   rw [UInt8.toNat_add, hi]
   simp only [UInt8.toNat_one]
   exact Nat.mod_eq_of_lt hlt
+
+
+/-- **C16, restart and no hop at a packet end (transmit).** A transmit-done event — alone or
+    together with a channel-change event — restarts the sequence at the first entry and programs
+    no frequency: the only transfers are the flag read and its acknowledgement. -/
+theorem C16_restart_tx (fuel : Nat) (h : Handle) (c : Chip) (hl : c.isLora = true)
+    (hm : h.activeModem = Gen.SX127x_MODULATION_LORA)
+    (hflags : c.lora.rd 0x12 &&& 0x04 = 0 ∧ c.lora.rd 0x12 &&& 0x20 = 0 ∧ c.lora.rd 0x12 &&& 0x40 = 0 ∧
+              c.lora.rd 0x12 &&& 0x08 ≠ 0) :
+    wp (handleInterrupt fuel) h ⟨c, [], []⟩ (fun r h' s' =>
+      h'.curFreq = 0 ∧
+      s'.bus = [.w 0x12 [c.lora.rd 0x12] (.ok ()), .r 0x12 1 (.ok (be32 [c.lora.rd 0x12]))]) := by
+  obtain ⟨hcad, hcrc, hrx, htx⟩ := hflags
+  rw [wp_handleInterrupt_lora _ _ _ _ hm]
+  unfold loraHandleInterrupt
+  simp only [wp_bind, wp_rread, wp_swrite, wp_getH, show Gen.REGIRQFLAGS = 0x12 from rfl,
+    readN_one _ 0x12 (by decide), show (0x12 % 128) = 0x12 from rfl, peek_lora _ _ hl (show inPage 0x12 = true by decide),
+    be32_single, writeN_one, flag_consts.1, flag_consts.2.1, flag_consts.2.2.1, flag_consts.2.2.2.1,
+    hcad, hcrc, hrx, htx, ne_eq, not_true_eq_false, not_false_eq_true, ↓reduceIte, wp_modH]
+  unfold txCallback
+  rw [wp_bind, wp_getH]
+  dsimp only
+  split
+  · simp only [wp_cb]; exact ⟨by trivial, by trivial⟩
+  · simp only [wp_pure]; exact ⟨by trivial, by trivial⟩
+
+/-- **C16, restart at a CRC-failed reception.** (`C05_crc_error`: the counter is reset, no
+    frequency is programmed, whether or not a channel-change event is flagged as well.) -/
+theorem C16_restart_crc (fuel : Nat) (h : Handle) (c : Chip) (hl : c.isLora = true)
+    (hm : h.activeModem = Gen.SX127x_MODULATION_LORA)
+    (hcad : c.lora.rd 0x12 &&& 0x04 = 0) (hcrc : c.lora.rd 0x12 &&& 0x20 ≠ 0) :
+    wp (handleInterrupt fuel) h ⟨c, [], []⟩ (fun r h' s' =>
+      h'.curFreq = 0 ∧
+      s'.bus = [.w 0x12 [c.lora.rd 0x12] (.ok ()), .r 0x12 1 (.ok (be32 [c.lora.rd 0x12]))]) := by
+  apply wp_mono _ _ _ _ _ _ (C05_crc_error fuel h c hl hm hcad hcrc)
+  intro r h' s' ⟨_, hh, hb⟩
+  exact ⟨by rw [hh], hb⟩
+
+/-- **C16, restart at a completed reception.** (`C05_rx_done`: the handle afterwards has the
+    counter reset.) -/
+theorem C16_restart_rx (fuel : Nat) (h : Handle) (c : Chip) (wf : c.WF) (hl : c.isLora = true)
+    (hm : h.activeModem = Gen.SX127x_MODULATION_LORA) (hcb : h.rxCb = true) (hexp : h.expected = 0)
+    (hcap : 255 ≤ h.packet.length)
+    (hcad : c.lora.rd 0x12 &&& 0x04 = 0) (hcrc : c.lora.rd 0x12 &&& 0x20 = 0) (hrx : c.lora.rd 0x12 &&& 0x40 ≠ 0) :
+    wp (handleInterrupt fuel) h ⟨c, [], []⟩ (fun r h' s' => h'.curFreq = 0 ∧ s'.chip.shared = c.shared) := by
+  apply wp_mono _ _ _ _ _ _ (C05_rx_done fuel h c wf hl hm hcb hexp hcap hcad hcrc hrx)
+  intro r h' s' ⟨_, hh, _, _, hs, _⟩
+  exact ⟨by rw [hh]; rfl, hs⟩
+
+/-- non-vacuity of the index lemma: three entries, five hops → 0, 1, 2, 0, 1 -/
+example : (List.range 5).map (fun j => hopIndex (hopCounter 3 j) 3) = [0, 1, 2, 0, 1] := by decide
 
 end Sx
